@@ -82,6 +82,7 @@ type Ctx struct {
 	only     int64 // when >= 0: run only this ordinal of the unit
 	ckpt     []byte
 	replay   bool
+	stopped  bool
 }
 
 func NewCtx(p *Prop, t Tier, seed int64) *Ctx {
@@ -158,6 +159,20 @@ func getU64(b []byte) uint64 {
 // describe-mode), so building it may be expensive.
 func (c *Ctx) Do(spec func() any, check func() *Violation) {
 	if c.skip() {
+		return
+	}
+	// a tree that is badly broken (or a limit that is gone) can make single cases very slow: stop enumerating once the
+	// exploration budget is used up or enough violations are on record; the run is then reported as not exhaustive
+	if c.stopped {
+		return
+	}
+	if int64(len(c.Violations))+c.Notes["violations_not_listed"] >= 200 {
+		c.stopped = true
+		c.Incompl("enumeration stopped after 200 violating cases in one worker")
+		return
+	}
+	if c.Ordinal%64 == 0 && c.Expired() {
+		c.stopped = true
 		return
 	}
 	ord := c.Ordinal - 1
